@@ -588,9 +588,8 @@ func (ss *SegStore) isSegstoreUnusedSinceTime(timeDuration time.Duration) bool {
 }
 
 func removeStaleSegments() {
-	segStoresToDeleteChan := make(chan string, len(allSegStores))
-
 	allSegStoresLock.RLock()
+	segStoresToDeleteChan := make(chan string, len(allSegStores))
 	for streamid, segstore := range allSegStores {
 
 		segstore.Lock.Lock()
